@@ -250,7 +250,7 @@ def convert_to_utf8(
     elif http_headers and "content-type" not in http_headers:
         rfc3023_encoding = xml_encoding or "iso-8859-1"
     else:
-        rfc3023_encoding = xml_encoding or "utf-8"
+        rfc3023_encoding = xml_encoding or bom_encoding or "utf-8"
     # gb18030 is a superset of gb2312, so always replace gb2312
     # with gb18030 for greater compatibility.
     if rfc3023_encoding.lower() == "gb2312":
